@@ -31,6 +31,9 @@ def _myround(number_to_round, decimal_places):
         return number_to_round + abs(number_to_round) / number_to_round * 0.5  # simulate Python 2 rounding
         # via https://stackoverflow.com/questions/21839140/
         # python-3-rounding-behavior-in-python-2
+    if isinstance(number_to_round, int) and -int(decimal_places) > number_to_round.bit_length():
+        # rounds to zero; round() would compute 10 ** -decimal_places to find that out
+        return 0
     rounded_number = round(number_to_round, int(decimal_places))
     if int(rounded_number) == rounded_number:
         return int(rounded_number)
